@@ -31,6 +31,10 @@ type recFs struct {
 	faults map[int]string
 	hit    []string
 	hitIdx []int // operation index of each hit
+	// closeErr: every Close() really closes and then reports an error (what a network or FUSE mount,
+	// or a full disk on the last flush, does); not an indexed operation, so that the operation
+	// numbering of the fault schedules is unaffected
+	closeErr bool
 }
 
 var errInjected = errors.New("injected fault")
@@ -179,8 +183,40 @@ func (f *recFile) Close() error {
 		delete(f.fs.open, f.id)
 		f.fs.nClose++
 	}
+	ce := f.fs.closeErr
 	f.fs.mu.Unlock()
-	return f.File.Close()
+	err := f.File.Close()
+	if ce && err == nil {
+		return errInjected
+	}
+	return err
+}
+
+// closeErrFs: a filesystem whose handles work normally but report an error from Close()
+// (after really closing) - for the library server of the C15 stream
+type closeErrFs struct{ afero.Fs }
+
+type closeErrFile struct{ afero.File }
+
+func (f closeErrFile) Close() error {
+	if err := f.File.Close(); err != nil {
+		return err
+	}
+	return errInjected
+}
+func (s closeErrFs) Open(name string) (afero.File, error) {
+	f, err := s.Fs.Open(name)
+	if err != nil {
+		return nil, err
+	}
+	return closeErrFile{f}, nil
+}
+func (s closeErrFs) OpenFile(name string, flag int, perm os.FileMode) (afero.File, error) {
+	f, err := s.Fs.OpenFile(name, flag, perm)
+	if err != nil {
+		return nil, err
+	}
+	return closeErrFile{f}, nil
 }
 func (f *recFile) Read(p []byte) (int, error) {
 	switch f.fs.op("read", "") {
